@@ -7,7 +7,7 @@ use crate::prng::Rng;
 use crate::props_log::{check_stored, stored_logs, written_logs};
 use crate::props_run::check_c06;
 use crate::proto::hex;
-use crate::rundrv::{drive_run_l, Behav, LAction, LFault, LTrigger, OutStep, RunOpts, RunScript, Strategy};
+use crate::rundrv::{drive_run_l, Behav, LAction, LFault, LTrigger, OutStep, RunOpts, RunScript, RunTrace, Strategy};
 use crate::runworld::*;
 use crate::world::{CmdFile, TargetSpec, World, WorldSpec};
 use serde::{Deserialize, Serialize};
@@ -494,6 +494,10 @@ pub struct C20Scenario {
     pub spec: WorldSpec,
     pub script: RunScript,
     pub listener: ListenerCfg,
+    /// a second run that starts the moment the first one has ended, served by the same listener (which may
+    /// still be printing the tail of the first)
+    #[serde(default)]
+    pub second: Option<RunScript>,
 }
 
 pub struct C20;
@@ -563,7 +567,36 @@ fn gen_c20(seed: u64, idx: usize, tier: Tier) -> C20Scenario {
         script.lfaults.push(LFault { at: LTrigger::AfterOut { n: a }, action: LAction::Stop });
         script.lfaults.push(LFault { at: LTrigger::AfterOut { n: (a + rng.range(5, 40)).min(total) }, action: LAction::Cont });
     }
-    C20Scenario { spec, script, listener: ListenerCfg { stdout: so, stderr: se, targets: lt, commands: lc } }
+    // one scenario in six: two runs back to back on one listener; the first ends with a burst so that the
+    // listener is still relaying it when the second connects
+    let mut second = None;
+    if !heavy_stall && rng.chance(1, 6) {
+        for b in script.behav.iter_mut().take(3) {
+            let mut s = String::new();
+            let k = rng.range(2500, 5000);
+            for i in 0..k {
+                s.push_str(&format!("{}@{} fd1 tail{} {}\n", b.command, b.target, i, "q".repeat(rng.below(40))));
+            }
+            b.outs.push(OutStep { fd: 1, hex: hex(s.as_bytes()), pause_ms: 0, close: false });
+        }
+        let mut s2 = RunScript::simple(RunOpts { commands: cmds.clone(), ..Default::default() });
+        for cf in &spec.cmd_files {
+            let outs = (0..rng.range(1, 4))
+                .map(|j| {
+                    let fd = if rng.chance(1, 2) { 1u8 } else { 2 };
+                    OutStep { fd, hex: hex(format!("{}@{} fd{} second-run line {}\n", cf.command, cf.target, fd, j).as_bytes()), pause_ms: 0, close: false }
+                })
+                .collect();
+            s2.behav.push(Behav { command: cf.command.clone(), target: cf.target.clone(), outs, code: 0, exit_pause_ms: 0, early_exit: false, hold_pipes_ms: 0 });
+        }
+        s2.strategy = Strategy::Uniform;
+        s2.sched_seed = rng.next_u64();
+        s2.flush_ms = script.flush_ms;
+        s2.workers = script.workers;
+        s2.rand_seed = script.rand_seed;
+        second = Some(s2);
+    }
+    C20Scenario { spec, script, listener: ListenerCfg { stdout: so, stderr: se, targets: lt, commands: lc }, second }
 }
 
 fn exec_c20(sc: &C20Scenario) -> Outcome {
@@ -578,7 +611,10 @@ fn exec_c20(sc: &C20Scenario) -> Outcome {
         Ok(l) => l,
         Err(e) => return Outcome::skip(&format!("listener: {}", e)),
     };
-    let tr = drive_run_l(&mut w, "M1", &sc.script, Duration::from_millis(default_hang_ms()), Some(l));
+    let hang = Duration::from_millis(default_hang_ms());
+    let tr = drive_run_l(&mut w, "M1", &sc.script, hang, Some(l));
+    // the second run starts at once: the listener may still be relaying the first
+    let tr2 = sc.second.as_ref().map(|s2| drive_run_l(&mut w, "M2", s2, hang, Some(l)));
     let lout = finish_listener(&mut w, l);
     let mut out = Outcome::default();
     out.trace = tr.log.iter().filter(|l| !l.starts_with("out ")).cloned().collect();
@@ -591,10 +627,19 @@ fn exec_c20(sc: &C20Scenario) -> Outcome {
         out.fault(&name, 1);
     }
     out.sim_ms = tr.real_pause_ms;
-    if tr.hang.is_some() || tr.code() != Some(0) {
-        out.advisories.push(format!("run failed: {:?} {:?} {}", tr.hang, tr.code(), tr.stderr_str()));
-        out.skipped = Some("run_did_not_succeed(other property)".into());
-        return out;
+    let mut runs: Vec<(&RunTrace, &RunScript)> = vec![(&tr, &sc.script)];
+    if let (Some(t2), Some(s2)) = (tr2.as_ref(), sc.second.as_ref()) {
+        out.trace.extend(t2.log.iter().filter(|l| !l.starts_with("out ")).cloned());
+        out.steps += t2.steps as u64;
+        out.fault("second_run_connects_while_the_listener_relays_the_first", 1);
+        runs.push((t2, s2));
+    }
+    for (t, _) in &runs {
+        if t.hang.is_some() || t.code() != Some(0) {
+            out.advisories.push(format!("run failed: {:?} {:?} {}", t.hang, t.code(), t.stderr_str()));
+            out.skipped = Some("run_did_not_succeed(other property)".into());
+            return out;
+        }
     }
     let cap = match lout {
         Some(x) => x.stdout,
@@ -612,74 +657,94 @@ fn exec_c20(sc: &C20Scenario) -> Outcome {
         out.violate("block_structure", "no_stream_header", "the listener printed nothing although a run connected".into());
         return out;
     }
-    // first block: the (uncoloured) stream header of the connection
-    let head = &blocks[0];
-    if !head.bytes.is_empty() {
-        out.violate("block_structure", "bytes_after_stream_header", format!("bytes follow the stream header without a block header: {:?}", String::from_utf8_lossy(&head.bytes[..head.bytes.len().min(120)])));
+    // one segment per connection: it starts at the (uncoloured) stream header the run sends first
+    let mut segs: Vec<Vec<&crate::logparse::Block>> = vec![];
+    for b in &blocks {
+        if !b.colored {
+            if !b.bytes.is_empty() {
+                out.violate("block_structure", "bytes_after_stream_header", format!("bytes follow the stream header without a block header: {:?}", String::from_utf8_lossy(&b.bytes[..b.bytes.len().min(120)])));
+                return out;
+            }
+            segs.push(vec![]);
+        } else {
+            match segs.last_mut() {
+                Some(s) => s.push(b),
+                None => {
+                    out.violate("block_structure", "bytes_before_stream_header", format!("a block for {:?} precedes the stream header", (&b.file, &b.target, &b.command)));
+                    return out;
+                }
+            }
+        }
+    }
+    if segs.len() != runs.len() {
+        out.violate("block_structure", "stream_header_count", format!("{} run(s) connected one after the other but the capture holds {} stream header(s)", runs.len(), segs.len()));
         return out;
     }
-    let stored = match stored_logs(&w, &tr, &sc.spec, &sc.script.opts.commands) {
-        Ok(s) => s,
-        Err(e) => {
-            out.skipped = Some(format!("stored logs unreadable: {}", e));
-            return out;
-        }
-    };
-    let mut re: BTreeMap<(String, String, String), Vec<u8>> = BTreeMap::new();
-    let mut per_key_blocks: BTreeMap<(String, String, String), usize> = BTreeMap::new();
+    let mut multi = 0;
     let mut alternations = 0;
-    let mut last_key: Option<(String, String, String)> = None;
-    for b in &blocks[1..] {
-        let k = (b.file.clone(), b.target.clone(), b.command.clone());
-        if !sc.listener.admits(&k.0, &k.1, &k.2) {
-            out.violate("filter", "unadmitted_block", format!("listener {:?} printed a block for {:?}", sc.listener, k));
-            return out;
-        }
-        if last_key.as_ref().map(|x| *x != k).unwrap_or(false) {
-            alternations += 1;
-        }
-        last_key = Some(k.clone());
-        *per_key_blocks.entry(k.clone()).or_insert(0) += 1;
-        re.entry(k).or_default().extend_from_slice(&b.bytes);
-    }
-    // every admitted non-empty stored log must be reproduced; nothing else may appear
-    let mut want: BTreeMap<(String, String, String), Vec<u8>> = BTreeMap::new();
-    for (k, v) in &stored {
-        if sc.listener.admits(&k.0, &k.1, &k.2) && !v.is_empty() {
-            want.insert(k.clone(), v.clone());
-        }
-    }
-    for (k, v) in &want {
-        match re.get(k) {
-            None => {
-                out.violate("reassembly", "stream_missing", format!("no block for {:?} although its stored log has {} bytes", k, v.len()));
+    for (ri, ((t, s), seg)) in runs.iter().zip(segs.iter()).enumerate() {
+        let stored = match stored_logs(&w, t, &sc.spec, &s.opts.commands) {
+            Ok(s) => s,
+            Err(e) => {
+                out.skipped = Some(format!("stored logs unreadable: {}", e));
                 return out;
             }
-            Some(g) if g != v => {
-                let pos = g.iter().zip(v.iter()).position(|(a, b)| a != b).unwrap_or(g.len().min(v.len()));
-                let near_g = String::from_utf8_lossy(&g[pos.min(g.len())..(pos + 80).min(g.len())]).into_owned();
-                let near_v = String::from_utf8_lossy(&v[pos.min(v.len())..(pos + 80).min(v.len())]).into_owned();
-                let tag = format!("{}@{} ", k.2, k.1);
-                let foreign = String::from_utf8_lossy(g).lines().any(|l| !l.starts_with(&tag));
-                let class = if foreign { "foreign_line_in_block" } else if g.len() < v.len() { "lines_missing" } else { "lines_differ" };
-                out.violate("reassembly", class, format!("blocks of {:?} concatenate to {} bytes, stored log has {}; first difference at {}: tail {:?} vs stored {:?}", k, g.len(), v.len(), pos, near_g, near_v));
+        };
+        let mut re: BTreeMap<(String, String, String), Vec<u8>> = BTreeMap::new();
+        let mut per_key_blocks: BTreeMap<(String, String, String), usize> = BTreeMap::new();
+        let mut last_key: Option<(String, String, String)> = None;
+        for b in seg.iter() {
+            let k = (b.file.clone(), b.target.clone(), b.command.clone());
+            if !sc.listener.admits(&k.0, &k.1, &k.2) {
+                out.violate("filter", "unadmitted_block", format!("listener {:?} printed a block for {:?}", sc.listener, k));
                 return out;
             }
-            _ => {}
+            if last_key.as_ref().map(|x| *x != k).unwrap_or(false) {
+                alternations += 1;
+            }
+            last_key = Some(k.clone());
+            *per_key_blocks.entry(k.clone()).or_insert(0) += 1;
+            re.entry(k).or_default().extend_from_slice(&b.bytes);
         }
-    }
-    for k in re.keys() {
-        if !want.contains_key(k) {
-            out.violate("reassembly", "block_without_log", format!("blocks printed for {:?} but the stored log is empty or absent", k));
-            return out;
+        // every admitted non-empty stored log must be reproduced; nothing else may appear
+        let mut want: BTreeMap<(String, String, String), Vec<u8>> = BTreeMap::new();
+        for (k, v) in &stored {
+            if sc.listener.admits(&k.0, &k.1, &k.2) && !v.is_empty() {
+                want.insert(k.clone(), v.clone());
+            }
         }
+        let which = if runs.len() > 1 { format!(" (run {} of {})", ri + 1, runs.len()) } else { String::new() };
+        for (k, v) in &want {
+            match re.get(k) {
+                None => {
+                    out.violate("reassembly", "stream_missing", format!("no block for {:?} although its stored log has {} bytes{}", k, v.len(), which));
+                    return out;
+                }
+                Some(g) if g != v => {
+                    let pos = g.iter().zip(v.iter()).position(|(a, b)| a != b).unwrap_or(g.len().min(v.len()));
+                    let near_g = String::from_utf8_lossy(&g[pos.min(g.len())..(pos + 80).min(g.len())]).into_owned();
+                    let near_v = String::from_utf8_lossy(&v[pos.min(v.len())..(pos + 80).min(v.len())]).into_owned();
+                    let tag = format!("{}@{} ", k.2, k.1);
+                    let foreign = String::from_utf8_lossy(g).lines().any(|l| !l.starts_with(&tag));
+                    let class = if foreign { "foreign_line_in_block" } else if g.len() < v.len() { "lines_missing" } else { "lines_differ" };
+                    out.violate("reassembly", class, format!("blocks of {:?} concatenate to {} bytes, stored log has {}{}; first difference at {}: tail {:?} vs stored {:?}", k, g.len(), v.len(), which, pos, near_g, near_v));
+                    return out;
+                }
+                _ => {}
+            }
+        }
+        for k in re.keys() {
+            if !want.contains_key(k) {
+                out.violate("reassembly", "block_without_log", format!("blocks printed for {:?} but the stored log is empty or absent{}", k, which));
+                return out;
+            }
+        }
+        multi += per_key_blocks.values().filter(|n| **n >= 2).count();
     }
-    let multi = per_key_blocks.values().filter(|n| **n >= 2).count();
     out.probe("captures_with_alternating_blocks", (alternations >= 2) as u64);
     out.probe("streams_with_two_or_more_blocks", multi as u64);
     out.nontrivial = multi >= 2 && alternations >= 2;
-    out.signature = format!("{}|{:?}|{}|{}|{:?}", sc.spec.targets.len(), sc.listener, blocks.len(), alternations, sc.script.flush_ms);
-    let _ = BTreeSet::<u8>::new();
+    out.signature = format!("{}|{:?}|{}|{}|{:?}|{}", sc.spec.targets.len(), sc.listener, blocks.len(), alternations, sc.script.flush_ms, runs.len());
     out
 }
 
@@ -705,12 +770,20 @@ impl Property for C20 {
     fn shrink(&self, v: &Value) -> Vec<Value> {
         let mut outv = vec![];
         if let Ok(sc) = serde_json::from_value::<C20Scenario>(v.clone()) {
+            if sc.second.is_some() {
+                let mut s = sc.clone();
+                s.second = None;
+                outv.push(serde_json::to_value(s).unwrap());
+            }
             for i in (0..sc.spec.targets.len()).rev() {
                 if sc.spec.targets.len() > 2 {
                     let mut s = sc.clone();
                     let p = s.spec.targets.remove(i).path;
                     s.spec.cmd_files.retain(|c| c.target != p);
                     s.script.behav.retain(|b| b.target != p);
+                    if let Some(s2) = s.second.as_mut() {
+                        s2.behav.retain(|b| b.target != p);
+                    }
                     s.listener.targets.retain(|t| *t != p);
                     outv.push(serde_json::to_value(s).unwrap());
                 }
@@ -727,7 +800,7 @@ impl Property for C20 {
         outv
     }
     fn rule(&self) -> String {
-        "a real `log tail` listener (stream and target/command filter combinations) and a run of 4-12 (thorough 4-24) concurrent tasks, each writing 6-20 small writes of 1-3 newline-terminated lines on both streams (lines carry command@target, stream and a sequence number), flush knob 5-20 ms so every task flushes many blocks onto the one connection, TOKIO_WORKER_THREADS 4-16, one in four with the listener SIGSTOPped for 5-40 writes to build back-pressure. Oracle on the listener's stdout: stream header first; every later line belongs to the block of the nearest preceding header; per (stream, target, command) the blocks concatenate to the stored log; no block outside the filters. Non-trivial = >= 2 streams contributed >= 2 blocks each and blocks of different streams alternate in the capture; distinct = (tasks, filter, block count, alternations, flush knob)".into()
+        "a real `log tail` listener (stream and target/command filter combinations) and a run of 4-12 (thorough 4-24) concurrent tasks, each writing 6-20 small writes of 1-3 newline-terminated lines on both streams (lines carry command@target, stream and a sequence number), flush knob 5-20 ms so every task flushes many blocks onto the one connection, TOKIO_WORKER_THREADS 4-16, one in four with the listener SIGSTOPped for 5-40 writes to build back-pressure; one in six is two runs back to back on one listener, the first ending with bursts of 2500-5000 lines so that the listener is still relaying them when the second connects. Oracle on the listener's stdout: one segment per connection, each starting with its (uncoloured) stream header; every later line belongs to the block of the nearest preceding header; per (stream, target, command) the blocks concatenate to the stored log; no block outside the filters. Non-trivial = >= 2 streams contributed >= 2 blocks each and blocks of different streams alternate in the capture; distinct = (tasks, filter, block count, alternations, flush knob)".into()
     }
     fn components(&self) -> Value {
         components()
